@@ -19,6 +19,12 @@ mod syntax_sugar_remover;
 
 pub use parser_logic::parse_definition;
 
+/// Verification hooks: expose the comment stripper and the single-source parser.
+#[cfg(feature = "verif")]
+pub mod verif {
+    pub use crate::parser_logic::{preprocess, parse_file as parse_source, parse_string};
+}
+
 use include_logic::FileStack;
 use program_structure::ast::{Version, AST};
 use program_structure::report::{Report, ReportCollection};
